@@ -75,17 +75,24 @@ def _apply(c, m, op, k, v, alt):
         return True
     if op == 1:
         got = c.get(k)
-        exps = [mm.get(k) for mm in m]
-        if any(not _eq(got, e) for e in exps):
+        keep = [mm for mm in m if _eq(got, mm.val.get(k))]
+        if not keep:
             return fail("get value")
+        for mm in keep:
+            mm.get(k)
+        m[:] = keep
         return True
     if op == 2:
-        if bool(k in c) != (k in m[0].val):
+        keep = [mm for mm in m if bool(k in c) == (k in mm.val)]
+        if not keep:
             return fail("contains")
+        m[:] = keep
         return True
     if op == 3:
-        if len(c) != len(m[0].val):
+        keep = [mm for mm in m if len(c) == len(mm.val)]
+        if not keep:
             return fail("len")
+        m[:] = keep
         return True
     if op == 4:
         c.clear()
@@ -104,14 +111,14 @@ def _eq(a, b):
 
 def _observe_lru(c, models, max_size):
     """presence/values/len now, then probe the eviction order with fresh keys"""
-    m0 = models[0]
-    if len(c) != len(m0.val) or len(c) > max_size:
-        return fail("len after op")
-    for k in range(4):
-        if bool(k in c) != (k in m0.val):
-            return fail("presence after op")
+    if len(c) > max_size:
+        return fail("len exceeds max_size")
+    # several models are admissible (a re-put of a resident key may or may not refresh its recency):
+    # keep those that agree with what the cache reports now
+    alive = [mm for mm in models if len(c) == len(mm.val) and all(bool(k in c) == (k in mm.val) for k in range(4))]
+    if not alive:
+        return fail("presence / len after op")
     # probing: each fresh put evicts exactly the model's least recent entry
-    alive = list(models)
     for f in FRESH[:max_size]:
         c.put(f, -f)
         nxt = []
@@ -430,7 +437,7 @@ def obligations(tier):
                     [KP, "0 <= a1 <= 3 and 0 <= a2 <= 3", "0 <= op1 <= 4 and 0 <= op2 <= 5"]
                     + ([] if thorough else ["op2 == 5"]),
                     f"H.lru({ms}, {n}, k0, k1, k2, w0, w1, w2, op1, a1, v1, op2, a2, v2)",
-                    timeout=150,
+                    timeout=150 if not thorough else 900,
                     bounds=f"LRUCache(max_size={ms}, shared=False): {n} distinct puts (all orders), then 2 ops with symbolic opcode "
                     "(put/get/in/len/clear), key 0..3, value unbounded; then presence, len and eviction order probed with fresh puts",
                     canaries=("lru_evict_mru",) if (ms, n) == (2, 2) else (),
